@@ -32,6 +32,7 @@ package pubsubcoreapi
 //@   ensures err == nil ==> (forall x Str :: inList(leaving, x) <==> (inList(M0, x) && !inList(p.members, x)))
 //@   ensures err == nil ==> noDup(joining) && noDup(leaving)
 //@   ensures err == nil ==> p.members == all
+//@   modifies p.members, "MD:Str:V_anon_", "MC:Str:V_anon_", "MV:Str:V_anon_"
 
 // WatchMessages (the forwarding goroutine): a message whose sender is the local peer is never forwarded;
 // every forwarded event carries exactly the bytes of the message just received.
@@ -41,3 +42,28 @@ package pubsubcoreapi
 //@   requires p != nil && p.ps != nil && p.ps.logger != nil && sub != nil
 //@   assert @ before call pubsub.NewEventMessage#1: msgFrom(msg) != p.ps.id
 //@   assert @ after send ch: ptr(sent(ch)[len(sent(ch)) - 1], "berty.tech/go-orbit-db/iface.EventPubSubMessage").Content == msgData(msg)
+
+// WatchPeers (the polling goroutine): one poll reports exactly one join event per peer of `joining`, in
+// order, then exactly one leave event per peer of `leaving`, and nothing else; what was reported before is
+// not touched. Together with peersDiff (each change appears in exactly one diff) every membership change is
+// reported exactly once.
+//@ func (*psTopic).WatchPeers$1
+//@   props C20
+//@   flag nilcalls
+//@   requires p != nil && p.ps != nil && p.ps.logger != nil
+//@   loop 1 invariant p != nil && p.ps != nil && p.ps.logger != nil
+//@   loop 1.1 ghost S := len(sent(ch))
+//@   loop 1.1 ghost Q := sent(ch)
+//@   loop 1.1 invariant len(sent(ch)) == S + $i
+//@   loop 1.1 invariant forall x Int :: 0 <= x && x < S ==> sent(ch)[x] == Q[x]
+//@   loop 1.1 invariant forall x Int :: S <= x && x < S + $i ==> allocated(sent(ch)[x]) && typeis(sent(ch)[x], "*berty.tech/go-orbit-db/iface.EventPubSubJoin") && ptr(sent(ch)[x], "berty.tech/go-orbit-db/iface.EventPubSubJoin").Peer == joining[x - S]
+//@   loop 1.2 ghost S2 := len(sent(ch))
+//@   loop 1.2 ghost Q2 := sent(ch)
+//@   loop 1.2 invariant len(sent(ch)) == S2 + $i
+//@   loop 1.2 invariant forall x Int :: S <= x && x < S2 ==> typeis(Q2[x], "*berty.tech/go-orbit-db/iface.EventPubSubJoin") && ptr(Q2[x], "berty.tech/go-orbit-db/iface.EventPubSubJoin").Peer == joining[x - S]
+//@   loop 1.2 invariant forall x Int :: 0 <= x && x < S2 ==> sent(ch)[x] == Q2[x]
+//@   loop 1.2 invariant forall x Int :: S2 <= x && x < S2 + $i ==> allocated(sent(ch)[x]) && typeis(sent(ch)[x], "*berty.tech/go-orbit-db/iface.EventPubSubLeave") && ptr(sent(ch)[x], "berty.tech/go-orbit-db/iface.EventPubSubLeave").Peer == leaving[x - S2]
+//@   assert @ after loop 1.2: S2 == S + max(len(joining), 0) && len(sent(ch)) == S2 + max(len(leaving), 0)
+//@   assert @ after loop 1.2: forall x Int :: 0 <= x && x < S ==> sent(ch)[x] == Q[x]
+//@   assert @ after loop 1.2: forall x Int :: S <= x && x < S2 ==> typeis(sent(ch)[x], "*berty.tech/go-orbit-db/iface.EventPubSubJoin") && ptr(sent(ch)[x], "berty.tech/go-orbit-db/iface.EventPubSubJoin").Peer == joining[x - S]
+//@   assert @ after loop 1.2: forall x Int :: S2 <= x && x < len(sent(ch)) ==> typeis(sent(ch)[x], "*berty.tech/go-orbit-db/iface.EventPubSubLeave") && ptr(sent(ch)[x], "berty.tech/go-orbit-db/iface.EventPubSubLeave").Peer == leaving[x - S2]
